@@ -9,7 +9,28 @@ use vstd::prelude::*;
 verus! {
 
 //@enum file=yarel/src/chunk.rs name=OpCode
-//@dispatch file=yarel/src/vm.rs fn=Vm::run enum_file=yarel/src/chunk.rs enum=OpCode
+// What each numeric operator computes from its two operands a (pushed first) and b — the language's definition of the
+// operator, compared with the closure the interpreter loop hands to binary_op_impl (whose own contract — operand order,
+// TypeError on non-numbers — is unit ops):
+//@binop Greater => Value::Boolean(a > b)
+//@binop Less => Value::Boolean(a < b)
+//@binop Subtract => Value::Number(a - b)
+//@binop Multiply => Value::Number(a * b)
+//@binop Divide => Value::Number(a / b)
+//@binop Modulo => Value::Number(a % b)
+//@binop BitwiseAnd => Value::Number(((a as i64) & (b as i64)) as f64)
+//@binop BitwiseOr => Value::Number(((a as i64) | (b as i64)) as f64)
+//@binop BitwiseXor => Value::Number(((a as i64) ^ (b as i64)) as f64)
+//@binop BitShiftLeft => Value::Number((a as i64).checked_shl(b as u32).unwrap_or_default() as f64)
+//@binop BitShiftRight => Value::Number((a as i64).checked_shr(b as u32).unwrap_or_default() as f64)
+//@dispatch file=yarel/src/vm.rs fn=Vm::run enum_file=yarel/src/chunk.rs enum=OpCode handlers=1 inline=Constant,Nil,True,False,Pop,CopyTop alias=JumpIfStopIter:jump_if_stop_iter
+
+// every other arm calls the handler named after its opcode (OpCode::GetLocal -> get_local_impl): the handlers' contracts
+// (units upvalues, classes, exc, ops, items, modules, fiberx, flowvm …) are contracts of THAT instruction
+//@lemma name=every_opcode_is_dispatched_to_the_handler_of_that_opcode props=C05,C04,C02
+pub proof fn every_opcode_is_dispatched_to_the_handler_of_that_opcode() ensures ARMS_CALLING_ANOTHER_HANDLER == 0 {}
+//@lemma name=every_numeric_operator_computes_what_its_name_says props=C05
+pub proof fn every_numeric_operator_computes_what_its_name_says() ensures OPERATOR_ARMS_WITH_ANOTHER_DEFINITION == 0 {}
 
 //@lemma name=every_opcode_the_compiler_can_emit_has_a_handler
 pub proof fn every_opcode_the_compiler_can_emit_has_a_handler(op: OpCode) ensures dispatched(op) {}
